@@ -20,6 +20,7 @@ inline int key_of(const K1 &e) { return e.k; }
 inline int key_of(const K2 &e) { return e.k; }
 inline int key_of(const TC12 &e) { return e.key; }
 inline int key_of(const Val &v) { return v.key; }
+inline int key_of(const Proto &p) { return p.key; }  // as if converted first: what a non transparent comparator sees
 inline int key_of(int k) { return k; }
 inline int key_of(double d) { return static_cast<int>(d); }
 
@@ -31,6 +32,7 @@ inline unsigned pay_of(const TC8 &e) { return e.pay; }
 inline unsigned pay_of(const TC12 &e) { return e.pay; }
 inline unsigned pay_of(const TC16A &e) { return e.pay; }
 inline unsigned pay_of(const Val &v) { return v.pay; }
+inline unsigned pay_of(const Proto &p) { return p.pay; }
 template <class X>
 inline unsigned pay_of(const X &) { return 0; }  // raw arithmetic and key-only elements
 
@@ -114,6 +116,13 @@ struct TLess : CmpProv {
   explicit TLess(int o) : CmpProv(o) {}
   template <class A, class B>
   bool operator()(const A &a, const B &b) const { called(); return key_of(a) < key_of(b); }
+  // a Proto compared AS SUCH (not converted to the element type first) lies strictly between the element it converts to and the next one,
+  // like 1.5 between 1 and 2: a set that looks it up before building the element does not find the element it is about to duplicate
+  template <class A>
+  bool operator()(const A &a, const Proto &p) const { called(); return 2 * key_of(a) < 2 * p.key + p.half; }
+  template <class B>
+  bool operator()(const Proto &p, const B &b) const { called(); return 2 * p.key + p.half < 2 * key_of(b); }
+  bool operator()(const Proto &a, const Proto &b) const { called(); return 2 * a.key + a.half < 2 * b.key + b.half; }
   template <class A>
   bool operator()(const A &a, const HalfKey &h) const { called(); return (key_of(a) >> h.shift) < h.c; }
   template <class B>
